@@ -10,6 +10,7 @@ import (
 	"errors"
 	"fmt"
 	"math/big"
+	"net/url"
 	"os"
 	"os/exec"
 	"path/filepath"
@@ -148,6 +149,7 @@ func c18objects(seed int64, keys *gen.KeyRing, n int) []*c18object {
 			default:
 				m.Headers.Unprotected[int64(15)] = map[string]any{"iss": "x"}
 			}
+
 			o := &c18object{name: fmt.Sprintf("sign1-refusable-header-value-%d", i), kind: "sign1-refusable-header-value", alg: k.Name}
 			o.state = func() []any { return []any{m, k.Verifier} }
 			o.ops = []c18op{
@@ -157,6 +159,30 @@ func c18objects(seed int64, keys *gen.KeyRing, n int) []*c18object {
 				{"Headers.MarshalUnprotected", func() string { return resBytes(m.Headers.MarshalUnprotected()) }},
 			}
 			out = append(out, o)
+			// a URL object where a text string is due (x5u), as a pointer and by value, in either bucket:
+			// refused or not, it stays what the caller put there
+			for ui := 0; ui < 4; ui++ {
+				mu := &cose.Sign1Message{Headers: mkHeaders(k.Alg), Payload: payload, Signature: mon.FixedSig}
+				u, _ := url.Parse("https://example.com/certs/chain.pem")
+				var val any = u
+				if ui%2 == 1 {
+					val = *u
+				}
+				if ui < 2 {
+					mu.Headers.Unprotected[int64(35)] = val
+				} else {
+					mu.Headers.Protected[int64(35)] = val
+				}
+				ou := &c18object{name: fmt.Sprintf("sign1-url-object-as-x5u-%d-%d", i, ui), kind: "sign1-url-object-as-x5u", alg: k.Name}
+				ou.state = func() []any { return []any{mu, k.Verifier} }
+				ou.ops = []c18op{
+					{"MarshalCBOR", func() string { return resBytes(mu.MarshalCBOR()) }},
+					{"Verify", func() string { return resErr(mu.Verify(nil, k.Verifier)) }},
+					{"Headers.MarshalUnprotected", func() string { return resBytes(mu.Headers.MarshalUnprotected()) }},
+					{"Headers.MarshalProtected", func() string { return resBytes(mu.Headers.MarshalProtected()) }},
+				}
+				out = append(out, ou)
+			}
 			continue
 		}
 		if (i/42)%7 == 0 && (i%7 == 6 || i%7 == 2) && !decoded {
@@ -400,6 +426,26 @@ func c18objects(seed int64, keys *gen.KeyRing, n int) []*c18object {
 						}
 					}
 				}
+			}
+			if !decoded && (i/14)%2 == 0 {
+				// a hand-assembled key whose parameter LABELS are plain Go ints (or other integer spellings):
+				// whether such a key is usable or refused, using it does not rewrite the caller's map
+				np := make(map[any]any, len(ck.Params))
+				for l, v := range ck.Params {
+					if li, ok := l.(int64); ok {
+						switch (i / 56) % 3 {
+						case 0:
+							np[int(li)] = v
+						case 1:
+							np[int32(li)] = v
+						default:
+							np[int8(li)] = v
+						}
+					} else {
+						np[l] = v
+					}
+				}
+				ck.Params = np
 			}
 			if decoded {
 				b, _ := ck.MarshalCBOR()
